@@ -366,6 +366,25 @@ _MRO_GET = ('            extractor = self.registry.get(klass)\n            if ex
 B("extractor-lookup-get-form", ["*"], [("_errors.py", _MRO_OLD, _MRO_GET + '                return {}\n')])
 M("extractor-lookup-get-form-continues", ["C03"], "_errors.py", _MRO_OLD, _MRO_GET, "C03.mro")
 
+# --- round 11: ordinary maintenance commits; benign twins of the rules added for them
+B("threadedwriter-call-extra-local", ["*"], [("logwriter.py", "        self._queue.put(data)\n\n    def _reader", "        queue = self._queue\n        queue.put(data)\n\n    def _reader")])
+M("threadedwriter-call-only-when-running", ["C19", "C08", "C11", "C12", "C16", "C01"], "logwriter.py", "        self._queue.put(data)\n\n    def _reader",
+  "        if self.running:\n            self._queue.put(data)\n\n    def _reader", "C19.queue")
+B("filter-dumps-ensure-ascii-explicit", ["*"], [("filter.py", "dumps(result, cls=_DatetimeJSONEncoder)", "dumps(result, cls=_DatetimeJSONEncoder, ensure_ascii=True)")])
+M("filter-dumps-allow-nan-false", ["C20"], "filter.py", "dumps(result, cls=_DatetimeJSONEncoder)", "dumps(result, cls=_DatetimeJSONEncoder, allow_nan=False)", "C20.filter")
+M("destinations-remove-copy-and-store", ["C12", "C08"], "_output.py", "        self._destinations.remove(destination)\n",
+  "        remaining = list(self._destinations)\n        remaining.remove(destination)\n        self._destinations = remaining\n", "C12.remove")
+B("destinations-remove-through-alias", ["*"], [("_output.py", "        self._destinations.remove(destination)\n", "        current = self._destinations\n        current.remove(destination)\n")])
+M("preserve-context-shared-context-run", ["C06"], "_action.py", "    return restore_eliot_context\n", "    shared = __import__('contextvars').copy_context()\n    return partial(shared.run, restore_eliot_context)\n", "C06.once")
+M("builtin-extractor-logs-filename", ["C03", "C01"], "_errors.py", 'lambda e: {"errno": e.errno}', 'lambda e: {"errno": e.errno, "filename": e.filename}', ".extract")
+B("builtin-extractor-logs-strerror", ["*"], [("_errors.py", 'lambda e: {"errno": e.errno}', 'lambda e: {"errno": e.errno, "strerror": e.strerror}')])
+
+# --- argument validation: of an optional keyword-only configuration argument (not what is being logged) it is allowed; of the message type it is not
+M("log-message-rejects-non-str-type", ["C07"], "_action.py", "    action = current_action()\n    if action is None:\n        # Loggers will hopefully go away...",
+  "    if not isinstance(message_type, str):\n        raise TypeError(\"message_type must be a str\")\n    action = current_action()\n    if action is None:\n        # Loggers will hopefully go away...", "C07.contain")
+B("preserve-context-optional-kw-validated", ["*"], [("_action.py", "def preserve_context(f):", "def preserve_context(f, *, name=\"eliot:remote_task\"):"),
+   ("_action.py", "    action = current_action()\n    if action is None:\n        return f\n", "    if not isinstance(name, str):\n        raise TypeError(\"name must be a str\")\n    action = current_action()\n    if action is None:\n        return f\n")])
+
 # --- mechanical whole-package rewrites (sa/transforms.py); each was confirmed to keep the 404 baseline tests passing
 for _t in ("alpha", "ifelse", "retvar"):
     V.append({"id": "transform:" + _t, "kind": "benign", "props": ["*"], "transform": _t})
